@@ -357,13 +357,46 @@ fn rem(left: Value, right: Value) -> Result<Value> {
         (Value::Decimal(_), Value::Decimal(right)) if right.is_zero() => {
             Err(Error::DivisionByZero)
         }
-        (Value::Decimal(left), Value::Decimal(right)) => left
-            .checked_rem(right)
+        (Value::Decimal(left), Value::Decimal(right)) => decimal_rem(left, right)
             .map(Value::Decimal)
             .ok_or_else(|| Error::value_out_of_bounds(Value::Decimal(left), "rem")),
         (Value::None, _) | (_, Value::None) => Ok(Value::None),
         _ => Err(Error::InvalidType),
     }
+}
+
+/// Remainder of two decimals of different scale. `Decimal::checked_rem` wraps
+/// around 96 bits when it brings a mantissa to the larger scale
+/// (`d4294967295 % d1.0000000000000000000000000000` is not 0.92...), so the
+/// remainder is taken on the mantissas with modular arithmetic that stays
+/// within 128 bits. The divisor must not be zero
+fn decimal_rem(left: Decimal, right: Decimal) -> Option<Decimal> {
+    let left_mantissa = left.mantissa().unsigned_abs();
+    let right_mantissa = right.mantissa().unsigned_abs();
+
+    let remainder = if left.scale() >= right.scale() {
+        // the divisor is scaled up, a divisor that no longer fits is larger than the dividend
+        let factor = 10u128.checked_pow(left.scale() - right.scale())?;
+        match right_mantissa.checked_mul(factor) {
+            Some(divisor) => left_mantissa % divisor,
+            None => left_mantissa,
+        }
+    } else {
+        // the dividend is scaled up: (mantissa * 10^n) mod divisor, a digit at a time
+        (0..right.scale() - left.scale()).fold(left_mantissa % right_mantissa, |rem, _| {
+            // rem < 2^96, so rem * 10 fits
+            (rem * 10) % right_mantissa
+        })
+    };
+
+    let magnitude = i128::try_from(remainder).ok()?;
+    let signed = if left.is_sign_negative() {
+        -magnitude
+    } else {
+        magnitude
+    };
+
+    Decimal::try_from_i128_with_scale(signed, left.scale().max(right.scale())).ok()
 }
 
 fn add(left: Value, right: Value) -> Result<Value> {
